@@ -106,16 +106,42 @@ def run_synthetic(item):
 _WANT_ROWS = True
 
 
+REPORTED = ("stored_food_feed", "stored_food_biofuels", "outdoor_crops_feed", "outdoor_crops_biofuels", "scp_feed",
+            "scp_biofuels", "cell_sugar_feed", "cell_sugar_biofuels", "seaweed_feed", "seaweed_biofuels")
+
+
 def run_real(item):
+    from src.scenarios.run_scenario import ScenarioRunner
+    o_int = ScenarioRunner.interpret_optimizer_results
+    reported = []
+
+    def w_int(self_, *a, **k):
+        r = o_int(self_, *a, **k)
+        # what the interpreter REPORTS per source as fed to animals / turned into biofuel (the k-th call follows the k-th solve)
+        try:
+            rec = {}
+            for name in REPORTED:
+                f = getattr(r, name)
+                rec[name] = {"kcals": [float(x) for x in np.asarray(f.kcals, dtype=float).ravel()], "units": str(f.kcals_units)}
+            reported.append(rec)
+        except Exception as e:  # never disturb the run
+            reported.append({"capture_error": repr(e)})
+        return r
+
+    ScenarioRunner.interpret_optimizer_results = w_int
     try:
         with ru.OptimizerCapture(want_rows=_WANT_ROWS) as cap, ru.quiet():
             ratio, interp = ru.run_country(item["iso3"], item["option"], title=item.get("title", "verif"))
+        if len(reported) == len(cap.solves):
+            for s_, r_ in zip(cap.solves, reported):
+                s_["reported"] = r_
         return {"iso3": item["iso3"], "option": item["option"], "ratio": float(ratio), "solves": cap.solves,
                 "headline": float(interp.percent_people_fed)}
     except BaseException as e:  # noqa
         return {"iso3": item["iso3"], "option": item["option"], "error": classify(e), "detail": str(e)[:300],
                 "trace": traceback.format_exc()[-1500:]}
     finally:
+        ScenarioRunner.interpret_optimizer_results = o_int
         ru.cleanup_cwd()
 
 
